@@ -92,6 +92,21 @@ package endpointf
 //@   ensures [C04] (ok13 && err == nil) ==> st.AuthType == (k13 == 0 ? decIntV(src, q12, 13, d0) : old(st.AuthType))
 //@   ensures [C06] (ok12 && k13 == 2) ==> err != nil
 //@   ensures [C04] ok13 ==> (err == nil && readBuf.buf.i == q13)
+//@   site ).Read#0 assert [C04] $2 == 0 && $3 == true
+//@   site ).Read#1 assert [C04] $2 == 1 && $3 == true
+//@   site ).Read#2 assert [C04] $2 == 2 && $3 == true
+//@   site ).Read#3 assert [C04] $2 == 3 && $3 == true
+//@   site ).Read#4 assert [C04] $2 == 4 && $3 == true
+//@   site ).Read#5 assert [C04] $2 == 5 && $3 == false
+//@   site ).Read#6 assert [C04] $2 == 6 && $3 == false
+//@   site ).Read#7 assert [C04] $2 == 7 && $3 == false
+//@   site ).Read#8 assert [C04] $2 == 8 && $3 == false
+//@   site ).Read#9 assert [C04] $2 == 9 && $3 == false
+//@   site ).Read#10 assert [C04] $2 == 11 && $3 == false
+//@   site ).Read#11 assert [C04] $2 == 12 && $3 == false
+//@   site ).Read#12 assert [C04] $2 == 13 && $3 == false
+//@   sites ).Read = 13
+//@   sites ).Skip = 0
 //@   safety [C05]
 //
 //@ func (*EndpointF).ReadBlock
